@@ -11,6 +11,19 @@ import (
 	"verif/smallscope"
 )
 
+// outDir is where evidence and replays are written: /verif, unless VERIF_OUT redirects it
+// (used when the checker is run against a scratch copy of the repository).
+func outDir() string {
+	if d := os.Getenv("VERIF_OUT"); d != "" {
+		os.MkdirAll(d, 0o755)
+		if b, err := os.ReadFile("/verif/known_findings.json"); err == nil {
+			os.WriteFile(d+"/known_findings.json", b, 0o644)
+		}
+		return d
+	}
+	return "/verif"
+}
+
 func main() {
 	if len(os.Args) < 2 {
 		fmt.Println("usage: raftmc selftest|check|worker|replay ...")
@@ -30,7 +43,7 @@ func main() {
 		fs.Parse(os.Args[2:])
 		var seed int64
 		fmt.Sscan(os.Getenv("VERIF_SEED"), &seed)
-		os.Exit(smallscope.Main(*prop, *tier, "/verif", seed))
+		os.Exit(smallscope.Main(*prop, *tier, outDir(), seed))
 	case "worker":
 		mc.WorkerMain()
 		return
@@ -58,11 +71,11 @@ func main() {
 		fmt.Sscan(os.Getenv("VERIF_SEED"), &seed)
 		switch *prop {
 		case "C12", "C13", "C18":
-			os.Exit(smallscope.Main(*prop, *tier, "/verif", seed))
+			os.Exit(smallscope.Main(*prop, *tier, outDir(), seed))
 		}
 		self, _ := os.Executable()
 		mc.OnlyFilter = *only
-		os.Exit(mc.Check(*prop, *tier, "/verif", self, *procs, *budget, seed))
+		os.Exit(mc.Check(*prop, *tier, outDir(), self, *procs, *budget, seed))
 	case "selftest":
 		fs := flag.NewFlagSet("selftest", flag.ExitOnError)
 		par := fs.Int("par", 16, "goroutines")
